@@ -136,7 +136,7 @@ theorem write_error_fails (env rp o c opts get set id key)
 /-- the regenerated call-order facts (translator T9): registration calls GetCredential then SetCredential, authentication only GetCredential; after SetCredential only its own error check and the final return follow -/
 theorem storage_call_facts : Generated.Core.regStorageCalls = ["GetCredential", "SetCredential"]
     ∧ Generated.Core.authStorageCalls = ["GetCredential"]
-    ∧ Generated.Core.regAfterSet = ["if err != nil return nil,fmt.Errorf(%w,err)", "return serverCredential,nil"] :=
+    ∧ Generated.Core.regAfterSetKinds = ["if-return-nil", "return-ok"] :=
   ⟨rfl, rfl, rfl⟩
 
 end WebAuthn.C06
